@@ -21,17 +21,17 @@ TECHNIQUE = ('model checking: bounded-exhaustive enumeration - every field swept
              'assignments of the other fields x every calling convention, Python-int bit-layout oracle')
 LEVEL_TEXT = ('every value of every objID/specObjID field (other fields at min/max corners) is packed by array, scalar and string '
               'conventions and unpacked again on the real code and compared bit-for-bit with an independent Python-int layout model; '
-              'every just-outside and +-2**k-outside value, every length mismatch and line+index must raise ValueError')
-LEVEL_NOTE = ('holds for one-field-swept / others-at-corners tuples, int64-representable values, int64 input arrays and canonical '
+              'every just-outside and +-2**k-outside value, every length mismatch and line+index must raise ValueError; argument arrays must stay bit-identical and a repeated call on the same objects must agree')
+LEVEL_NOTE = ('holds for one-field-swept / others-at-corners tuples, int64-representable values, integer input arrays (6 dtype profiles) and canonical '
               'vN_M_P strings (M,P <= 99); the full 2**63 product is not enumerated. Trusted: the layout tables in mc/props/c06.py '
               '(copied from the docstrings), Python int arithmetic, numpy array construction.')
-RULE = ('sweep shards: for each field every value of its documented range x corner assignments (min/max) of all other fields '
+RULE = ('sweep shards: for each field every value of its documented range x corner assignments (min/max) of all other fields, array calls in 6 integer dtype profiles (int64, int32, int16-where-it-fits, uint16/32, uint32, uint64) '
         '(thorough: all 2**k corners, quick: 4 of them - all-min, all-max, two alternating patterns); each tuple is one case per calling convention (array call, scalar '
         'call, scalar call with run2d as decimal string and as vN_M_P, unwrap from integer / U / S arrays with every option). '
         'reject shards: every value at distance 1, 2 and 2**k (k<=62) outside each range and negative values x corners x scalar / '
-        'array position; every length-mismatch pattern; line+index. A case is non-trivial when at least two fields (camcol not '
+        'array position and narrower dtype that holds the values; every length-mismatch pattern; line+index. Every array call is made twice on the same argument objects: arguments must be bit-identical afterwards and the second result equal (one extra case per vector call). A case is non-trivial when at least two fields (camcol not '
         'counted) are non-zero, or when a rejection is demanded. Distinct = distinct (convention, packed id) resp. distinct argument tuples.')
-ASSUMPTIONS = ['input arrays are int64 (the docstrings ask for explicit 64-bit integers); numpy scalars, floats, bools are not generated',
+ASSUMPTIONS = ['input arrays are integer arrays: int64 and the narrower/unsigned dtype profiles i4, i2 (int16 where the documented range fits, else int32), u2 (uint16/uint32), u4, u8, one profile for all columns of a call; numpy scalars, floats, bools are not generated',
                'numeric values are int64-representable (|v| <= 2**62); Python ints beyond int64 are outside the bound',
                'true MJD 50001..66383 is the in-range domain; MJD == 50000 (documented as "must be greater than 50000" but representable) is a don\'t-care and skipped',
                'run2d strings are canonical decimal strings or vN_M_P with 0 <= M,P <= 99 without zero padding; arrays of run2d strings are not generated',
@@ -161,8 +161,50 @@ def expect_specid(args):
                              'run2d': full['run2d'][i], 'low': low[i]}) for i in range(n)])
 
 
-def _arg(v):
-    return np.array(v, dtype=np.int64) if isinstance(v, list) else v
+# integer dtype menus for array arguments: every column gets the dtype the profile assigns to its documented range
+PROFILES = ('i8', 'i4', 'i2', 'u2', 'u4', 'u8')
+
+
+def field_dtype(profile, name):
+    hi = (OBJ_D.get(name) or SPEC_D.get(name) or SPEC_D['low'])[4]
+    if profile == 'i2':
+        return np.int16 if hi <= 32767 else np.int32
+    if profile == 'u2':
+        return np.uint16 if hi <= 65535 else np.uint32
+    return {'i8': np.int64, 'i4': np.int32, 'u4': np.uint32, 'u8': np.uint64}[profile]
+
+
+def fits(profile, args):
+    """Can every array argument hold its values in the dtype the profile gives it?"""
+    for name, v in args.items():
+        if isinstance(v, list):
+            info = np.iinfo(field_dtype(profile, name))
+            if any(not (info.min <= x <= info.max) for x in v):
+                return False
+    return True
+
+
+def _arg(v, name=None, profile='i8'):
+    return np.array(v, dtype=field_dtype(profile, name) if name else np.int64) if isinstance(v, list) else v
+
+
+def _snapshot(kw):
+    return {k: (v.dtype.str, v.shape, v.tobytes()) for k, v in kw.items() if isinstance(v, np.ndarray)}
+
+
+def _modified(kw, snap):
+    return [k for k, b in snap.items() if (kw[k].dtype.str, kw[k].shape, kw[k].tobytes()) != b]
+
+
+def _same_outcome(r1, e1, r2, e2):
+    if (e1 is None) != (e2 is None):
+        return False
+    if e1 is not None:
+        return type(e1) is type(e2)
+    try:
+        return _intlist(r1) == _intlist(r2)
+    except Exception:  # noqa: BLE001
+        return False
 
 
 def _intlist(r):
@@ -226,8 +268,25 @@ def wrong_value_sig(fn, args, got, exp):
     return [(sig, 'got %s expected %s for %s' % (got[:3], exp[:3], args))]
 
 
+def _dtype_sig(sig, prof):
+    parts = sig.split(':')
+    if len(parts) > 1 and parts[1] == 'layout':
+        return '%s:narrow-int-arrays:wrong-id:dtype-%s' % (parts[0], prof)
+    return sig + ':dtype-' + prof
+
+
 def check_pack(case):
-    """One packing call; returns None for a don't-care, else list of (sig, msg)."""
+    """One packing call (made twice on the same argument objects); None for a don't-care, else list of (sig, msg).
+    A failure that disappears when the same arrays are given as int64 is reported under a dtype-specific signature."""
+    res = _check_pack(case)
+    prof = case.get('dtype', 'i8')
+    if res and prof != 'i8':
+        if not _check_pack(dict(case, dtype='i8')):
+            res = [(_dtype_sig(sig, prof), msg) for sig, msg in res]
+    return res
+
+
+def _check_pack(case):
     import pydl.pydlutils.sdss as S
     fn = case['fn']
     args = case['args']
@@ -239,15 +298,32 @@ def check_pack(case):
         name, layout = 'sdss_specobjid', SPEC
     if exp[0] == 'dontcare':
         return None
-    kw = {k: _arg(v) for k, v in args.items()}
-    try:
-        if fn == 'objid':
-            r = S.sdss_objid(kw.pop('run'), kw.pop('camcol'), kw.pop('field'), kw.pop('objnum'), **kw)
-        else:
-            r = S.sdss_specobjid(kw.pop('plate'), kw.pop('fiber'), kw.pop('mjd'), kw.pop('run2d'), **kw)
-        exc = None
-    except Exception as e:  # noqa: BLE001 - every exception class is classified below
-        r, exc = None, e
+    prof = case.get('dtype', 'i8')
+    kw0 = {k: _arg(v, k, prof) for k, v in args.items()}
+    snap = _snapshot(kw0)
+
+    def call():
+        kw = dict(kw0)
+        try:
+            if fn == 'objid':
+                return S.sdss_objid(kw.pop('run'), kw.pop('camcol'), kw.pop('field'), kw.pop('objnum'), **kw), None
+            return S.sdss_specobjid(kw.pop('plate'), kw.pop('fiber'), kw.pop('mjd'), kw.pop('run2d'), **kw), None
+        except Exception as e:  # noqa: BLE001 - every exception class is classified below
+            return None, e
+    r, exc = call()
+    side = []
+    mod = _modified(kw0, snap)
+    if mod:
+        side.append(('%s:input-modified:%s' % (name, '+'.join(mod)), 'argument array(s) %s changed by the call %s' % (mod, args)))
+    elif snap:
+        r2, exc2 = call()
+        if not _same_outcome(r, exc, r2, exc2):
+            side.append(('%s:second-call-differs' % name, 'same argument objects, first %r/%r second %r/%r' % (r, exc, r2, exc2)))
+    main = _classify_pack(fn, name, args, exp, r, exc)
+    return main + side
+
+
+def _classify_pack(fn, name, args, exp, r, exc):
     trig = (lambda s: s) if fn == 'objid' else (lambda s: _trigger_spec(args, s))
     if exp[0] == 'either':
         if exc is not None and not isinstance(exc, ValueError):
@@ -286,8 +362,10 @@ def check_unwrap(case):
     if fn == 'unwrap_objid':
         from pydl.photoop.photoobj import unwrap_objid
         a = _idarray(ids, form, True)
+        call = lambda: unwrap_objid(a)  # noqa: E731
+        before = a.copy()
         try:
-            u = unwrap_objid(a)
+            u = call()
         except Exception as e:  # noqa: BLE001
             return [('unwrap_objid:exception:%s:form-%s' % (type(e).__name__, form), '%r on %s' % (e, ids[:3]))]
         want = {OBJ_COL[n]: [o_unobjid(i)[n] for i in ids] for n in OBJ_NAMES}
@@ -295,8 +373,10 @@ def check_unwrap(case):
         from pydl.pydlutils.sdss import unwrap_specobjid
         a = _idarray(ids, form, False)
         ri, li = bool(case.get('run2d_integer')), bool(case.get('specLineIndex'))
+        call = lambda: unwrap_specobjid(a, run2d_integer=ri, specLineIndex=li)  # noqa: E731
+        before = a.copy()
         try:
-            u = unwrap_specobjid(a, run2d_integer=ri, specLineIndex=li)
+            u = call()
         except Exception as e:  # noqa: BLE001
             return [('unwrap_specobjid:exception:%s:form-%s' % (type(e).__name__, form), '%r on %s' % (e, ids[:3]))]
         dec = [o_unspecid(i) for i in ids]
@@ -304,19 +384,40 @@ def check_unwrap(case):
                 'run2d': [d['run2d'] if ri else vstring(d['run2d']) for d in dec],
                 ('index' if li else 'line'): [d['low'] for d in dec]}
     wrong = []
+    side = _unwrap_side(fn, form, a, before, u, call, list(want))
     try:
-        if u.shape != a.shape:
-            return [('%s:result-shape' % fn, 'got %s for input %s' % (u.shape, a.shape))]
+        if u.shape != before.shape:
+            return [('%s:result-shape' % fn, 'got %s for input %s' % (u.shape, before.shape))] + side
         for col, w in want.items():
             if u[col].tolist() != w:
                 wrong.append(col)
     except Exception as e:  # noqa: BLE001
-        return [('%s:result-columns:%s' % (fn, type(e).__name__), repr(e))]
+        return [('%s:result-columns:%s' % (fn, type(e).__name__), repr(e))] + side
     if wrong:
         return [(unwrap_sig(fn, wrong), 'ids %s form %s%s: got %s expected %s'
                  % (ids[:2], form, '' if fn == 'unwrap_objid' else ' run2d_integer=%s specLineIndex=%s' % (ri, li),
-                    [u[c].tolist()[:2] for c in wrong], [want[c][:2] for c in wrong]))]
-    return []
+                    [u[c].tolist()[:2] for c in wrong], [want[c][:2] for c in wrong]))] + side
+    return side
+
+
+def _unwrap_side(fn, form, a, before, u, call, cols):
+    """The caller's ID array must be bit-identical after the call, and a second call on the SAME array object must
+    return the same record array.  Restores `a` when it was modified."""
+    out = []
+    if a.dtype != before.dtype or a.shape != before.shape or a.tobytes() != before.tobytes():
+        out.append(('%s:input-modified:form-%s' % (fn, form),
+                    'caller array %s... became %s... after the call' % (before.ravel()[:2].tolist(), a.ravel()[:2].tolist())))
+    try:
+        u2 = call()
+        same = u2.shape == u.shape and all(u2[c].tolist() == u[c].tolist() for c in cols)
+        if not same:
+            out.append(('%s:second-call-differs:form-%s' % (fn, form),
+                        'second call on the same array object: first %s second %s' % (u[:2].tolist(), u2[:2].tolist())))
+    except Exception as e:  # noqa: BLE001
+        out.append(('%s:second-call-differs:form-%s' % (fn, form), 'second call on the same array object raised %r' % (e,)))
+    if out and (a.dtype == before.dtype and a.shape == before.shape):
+        a[...] = before
+    return out
 
 
 def unwrap_sig(fn, wrong_cols):
@@ -416,23 +517,74 @@ def _bulk(acc, hashes, nontriv, n, bad_idx, label):
         acc.bulk(hashes[bad], nontriv[bad], 'bad:' + label)
 
 
-def _vector_pack(fn, call, exp, mk_case):
-    """{index: derived [(sig, msg)] or None} for the elements of a vector packing call that disagree with exp."""
+def _vector_pack(fn, call, exp, mk_case, arrays, prof='i8', bad_i8=None):
+    """{index: derived [(sig, msg)] or None} for the elements of a vector packing call that disagree with exp, a message,
+    and the vector-level side findings (argument arrays modified / second call on the same objects differs)."""
+    name = 'sdss_objid' if fn == 'objid' else 'sdss_specobjid'
+    snap = _snapshot(arrays)
+
+    def run():
+        try:
+            return call(), None
+        except Exception as e:  # noqa: BLE001
+            return None, e
+    r, exc = run()
+    side = []
+    mod = _modified(arrays, snap)
+    if mod:
+        side.append(('%s:input-modified:%s' % (name, '+'.join(mod)), 'argument array(s) %s changed by the vector call' % mod))
+    else:
+        r2, exc2 = run()
+        if not _same_outcome(r, exc, r2, exc2):
+            side.append(('%s:second-call-differs' % name, 'second vector call on the same argument objects differs'))
+    if exc is not None:
+        return {i: None for i in range(len(exp))}, repr(exc), side
     try:
-        got = _intlist(call())
+        got = _intlist(r)
     except Exception as e:  # noqa: BLE001
-        return {i: None for i in range(len(exp))}, repr(e)
+        return {i: None for i in range(len(exp))}, repr(e), side
     if len(got) != len(exp):
-        return {i: None for i in range(len(exp))}, 'result length %d != %d' % (len(got), len(exp))
-    bad = {i: wrong_value_sig(fn, mk_case(i)['args'], [g], [e]) for i, (g, e) in enumerate(zip(got, exp)) if g != e}
-    return bad, 'wrong values at %d positions' % len(bad)
+        return {i: None for i in range(len(exp))}, 'result length %d != %d' % (len(got), len(exp)), side
+    bad = {}
+    for i, (g, e) in enumerate(zip(got, exp)):
+        if g != e:
+            d = wrong_value_sig(fn, mk_case(i)['args'], [g], [e])
+            if prof != 'i8' and (bad_i8 is None or i not in bad_i8):
+                d = [(_dtype_sig(sig, prof), msg) for sig, msg in d]
+            bad[i] = d
+    return bad, 'wrong values at %d positions' % len(bad), side
 
 
-def _vector_unwrap(fn, call, want, shape):
+def _side(acc, task, label, side, mk_case, n):
+    """Record the per-call side checks (inputs unchanged, repeatable) of one vector call as one case."""
+    key = (json.dumps(task, sort_keys=True), label)
+    if not side:
+        acc.case(key, True, 'ok:inputs-unchanged+repeatable:' + label)
+        return
+    acc.case(key, True, 'bad:' + side[0][0])
+    found = set()
+    for i in range(min(3, n)):
+        case = mk_case(i)
+        for sig, msg in (check_case(case) or []):
+            if ':input-modified' in sig or ':second-call-differs' in sig:
+                found.add(sig)
+                acc.violation(sig, case, msg)
+    for sig, msg in side:
+        if sig not in found:
+            acc.violation(sig + ':vector-call-only', {'fn': 'vector', 'task': task}, msg)
+
+
+def _vector_unwrap(fn, call, want, arr, form):
+    shape = arr.shape
+    before = arr.copy()
     try:
         u = call()
+    except Exception as e:  # noqa: BLE001
+        return {i: None for i in range(shape[0])}, repr(e), []
+    side = _unwrap_side(fn, form, arr, before, u, call, list(want))
+    try:
         if u.shape != shape:
-            return {i: None for i in range(shape[0])}, 'shape %s' % (u.shape,)
+            return {i: None for i in range(shape[0])}, 'shape %s' % (u.shape,), side
         cols = {}
         for col, w in want.items():
             g = u[col].tolist()
@@ -442,9 +594,9 @@ def _vector_unwrap(fn, call, want, shape):
                         cols.setdefault(i, []).append((col, x, y))
         bad = {i: [(unwrap_sig(fn, [c for c, _x, _y in v]), 'vector call, element %d: got/expected %s' % (i, v))]
                for i, v in cols.items()}
-        return bad, 'wrong fields at %d positions' % len(bad)
+        return bad, 'wrong fields at %d positions' % len(bad), side
     except Exception as e:  # noqa: BLE001
-        return {i: None for i in range(shape[0])}, repr(e)
+        return {i: None for i in range(shape[0])}, repr(e), side
 
 
 def _columns(layout, swept, vals, corners):
@@ -472,19 +624,29 @@ def obj_sweep(acc, task):
     base = np.array(exp, dtype=np.uint64) * K64
     nz = sum((np.array(cols[name]) != 0).astype(int) for name in OBJ_NAMES if name != 'camcol')
     nontriv = nz >= 2
-    arr = {name: np.array(cols[name], dtype=np.int64) for name in OBJ_NAMES}
 
-    def single(conv):
+    def single(conv, prof='i8'):
         def mk(i):
             t = {name: cols[name][i] for name in OBJ_NAMES}
-            return {'fn': 'objid', 'args': {k: ([v] if conv == 'array' else v) for k, v in t.items()}}
+            case = {'fn': 'objid', 'args': {k: ([v] if conv == 'array' else v) for k, v in t.items()}}
+            if prof != 'i8':
+                case['dtype'] = prof
+            return case
         return mk
-    # array call
-    bad, msg = _vector_pack('objid', lambda: S.sdss_objid(arr['run'], arr['camcol'], arr['field'], arr['objnum'], rerun=arr['rerun'],
-                                                          skyversion=arr['skyversion'], firstfield=arr['firstfield']),
-                            exp, single('array'))
-    _localise(acc, task, 'sdss_objid:array', bad, single('array'), msg)
-    _bulk(acc, base + np.uint64(1), nontriv, n, bad, 'objid:array:sweep-' + f)
+    # array calls, one per integer dtype profile
+    bad_i8 = None
+    for pi, prof in enumerate(PROFILES):
+        arr = {name: np.array(cols[name], dtype=field_dtype(prof, name)) for name in OBJ_NAMES}
+        bad, msg, side = _vector_pack('objid', lambda arr=arr: S.sdss_objid(arr['run'], arr['camcol'], arr['field'], arr['objnum'],
+                                                                           rerun=arr['rerun'], skyversion=arr['skyversion'],
+                                                                           firstfield=arr['firstfield']),
+                                      exp, single('array', prof), arr, prof, bad_i8)
+        if prof == 'i8':
+            bad_i8 = set(bad)
+        _localise(acc, task, 'sdss_objid:array-' + prof, bad, single('array', prof), msg)
+        _side(acc, task, 'objid:array-' + prof, side, single('array', prof), n)
+        _bulk(acc, base + np.uint64(1 if prof == 'i8' else 40 + pi), nontriv, n, bad,
+              'objid:array%s:sweep-%s' % ('' if prof == 'i8' else '-' + prof, f))
     # scalar calls
     bad = []
     c = [cols[name] for name in ('run', 'camcol', 'field', 'objnum', 'rerun', 'skyversion', 'firstfield')]
@@ -502,9 +664,10 @@ def obj_sweep(acc, task):
     want = {OBJ_COL[name]: cols[name] for name in OBJ_NAMES}
     for k, form in enumerate(('int', 'U', 'S')):
         a = _idarray(exp, form, True)
-        bad, msg = _vector_unwrap('unwrap_objid', lambda a=a: unwrap_objid(a), want, a.shape)
-        _localise(acc, task, 'unwrap_objid:form-' + form, bad,
-                  lambda i, form=form: {'fn': 'unwrap_objid', 'ids': [exp[i]], 'form': form}, msg)
+        mk = lambda i, form=form: {'fn': 'unwrap_objid', 'ids': [exp[i]], 'form': form}  # noqa: E731
+        bad, msg, side = _vector_unwrap('unwrap_objid', lambda a=a: unwrap_objid(a), want, a, form)
+        _localise(acc, task, 'unwrap_objid:form-' + form, bad, mk, msg)
+        _side(acc, task, 'unwrap_objid:' + form, side, mk, n)
         _bulk(acc, base + np.uint64(3 + k), nontriv, n, bad, 'unwrap_objid:%s:sweep-%s' % (form, f))
 
 
@@ -529,10 +692,8 @@ def spec_sweep(acc, task):
         base = (np.array(exp, dtype=np.uint64) + np.uint64(gi * 7919)) * K64
         nz = sum((np.array(cols[name]) != (50000 if name == 'mjd' else 0)).astype(int) for name in SPEC_NAMES)
         nontriv = nz >= 2
-        arr = {name: np.array(cols[name], dtype=np.int64) for name in SPEC_NAMES}
-        lowkw = {} if kind == 'none' else {kind: arr['low']}
 
-        def single(conv, kind=kind, cols=cols):
+        def single(conv, prof='i8', kind=kind, cols=cols):
             def mk(i):
                 a = {name: cols[name][i] for name in ('plate', 'fiber', 'mjd', 'run2d')}
                 if kind != 'none':
@@ -543,12 +704,26 @@ def spec_sweep(acc, task):
                     a['run2d'] = str(a['run2d'])
                 elif conv == 'v':
                     a['run2d'] = vstring(a['run2d'])
-                return {'fn': 'specobjid', 'args': a}
+                case = {'fn': 'specobjid', 'args': a}
+                if prof != 'i8':
+                    case['dtype'] = prof
+                return case
             return mk
-        bad, msg = _vector_pack('specobjid', lambda: S.sdss_specobjid(arr['plate'], arr['fiber'], arr['mjd'], arr['run2d'], **lowkw),
-                                exp, single('array'))
-        _localise(acc, task, 'sdss_specobjid:array', bad, single('array'), msg)
-        _bulk(acc, base + np.uint64(1), nontriv, n, bad, 'specobjid:array:%s:sweep-%s' % (kind, f))
+        bad_i8 = None
+        for pi, prof in enumerate(PROFILES):
+            arr = {name: np.array(cols[name], dtype=field_dtype(prof, name)) for name in SPEC_NAMES}
+            lowkw = {} if kind == 'none' else {kind: arr['low']}
+            watched = {k: v for k, v in arr.items() if k != 'low' or kind != 'none'}
+            bad, msg, side = _vector_pack('specobjid',
+                                          lambda arr=arr, lowkw=lowkw: S.sdss_specobjid(arr['plate'], arr['fiber'], arr['mjd'],
+                                                                                        arr['run2d'], **lowkw),
+                                          exp, single('array', prof), watched, prof, bad_i8)
+            if prof == 'i8':
+                bad_i8 = set(bad)
+            _localise(acc, task, 'sdss_specobjid:array-' + prof, bad, single('array', prof), msg)
+            _side(acc, task, 'specobjid:array-%s:%s' % (prof, kind), side, single('array', prof), n)
+            _bulk(acc, base + np.uint64(1 if prof == 'i8' else 40 + pi), nontriv, n, bad,
+                  'specobjid:array%s:%s:sweep-%s' % ('' if prof == 'i8' else '-' + prof, kind, f))
         fn = S.sdss_specobjid
         P, Q, M, R, L = [cols[name] for name in SPEC_NAMES]
         for ci, conv in enumerate(('int', 'dec', 'v')):
@@ -576,12 +751,13 @@ def spec_sweep(acc, task):
                 for li in (False, True):
                     want = {'plate': P, 'fiber': Q, 'mjd': M, 'run2d': R if ri else [vstring(r) for r in R],
                             ('index' if li else 'line'): L}
-                    bad, msg = _vector_unwrap('unwrap_specobjid',
-                                              lambda a=a, ri=ri, li=li: S.unwrap_specobjid(a, run2d_integer=ri, specLineIndex=li),
-                                              want, a.shape)
-                    _localise(acc, task, 'unwrap_specobjid:form-' + form, bad,
-                              lambda i, form=form, ri=ri, li=li, exp=exp: {'fn': 'unwrap_specobjid', 'ids': [exp[i]], 'form': form,
-                                                                           'run2d_integer': ri, 'specLineIndex': li}, msg)
+                    mk = lambda i, form=form, ri=ri, li=li, exp=exp: {'fn': 'unwrap_specobjid', 'ids': [exp[i]],  # noqa: E731
+                                                                      'form': form, 'run2d_integer': ri, 'specLineIndex': li}
+                    bad, msg, side = _vector_unwrap('unwrap_specobjid',
+                                                    lambda a=a, ri=ri, li=li: S.unwrap_specobjid(a, run2d_integer=ri, specLineIndex=li),
+                                                    want, a, form)
+                    _localise(acc, task, 'unwrap_specobjid:form-' + form, bad, mk, msg)
+                    _side(acc, task, 'unwrap_specobjid:%s:%s:%s:%s' % (form, ri, li, kind), side, mk, n)
                     _bulk(acc, base + np.uint64(k), nontriv, n, bad,
                           'unwrap_specobjid:%s:%s%s:sweep-%s' % (form, 'run2d-int' if ri else 'run2d-str', ':index' if li else '', f))
                     k += 1
@@ -589,7 +765,7 @@ def spec_sweep(acc, task):
 
 # ------------------------------------------------------------------ individually enumerated cases
 def _one(acc, case):
-    key = (case['fn'], json.dumps(case.get('args', case.get('ids')), sort_keys=True), case.get('form'))
+    key = (case['fn'], json.dumps(case.get('args', case.get('ids')), sort_keys=True), case.get('form'), case.get('dtype'))
     res = check_case(case)
     if res is None:
         acc.skip('dont-care (MJD == 50000 or explicit default next to longer arrays)')
@@ -601,6 +777,8 @@ def _one(acc, case):
         return
     exp = expect_objid(case['args']) if case['fn'] == 'objid' else expect_specid(case['args'])
     conv = 'array' if any(isinstance(v, list) for v in case['args'].values()) else 'scalar'
+    if case.get('dtype'):
+        conv += '-' + case['dtype']
     if exp[0] == 'ok':
         out = 'ok:%s:%s:%s' % (case['fn'], conv, case.get('tag', 'value'))
     elif exp[0] == 'either':
@@ -657,7 +835,7 @@ def reject_task(acc, task, which):
             # scalar
             _one(acc, {'fn': fn, 'args': build(lambda name: t[name])})
             # arrays: n=1, and n=3 with the bad value at each position among valid values
-            _one(acc, {'fn': fn, 'args': build(lambda name: [t[name]])})
+            arrays = [build(lambda name: [t[name]])]
             for pos in range(3):
                 def vals_of(name, pos=pos):
                     if name != lname:
@@ -665,7 +843,13 @@ def reject_task(acc, task, which):
                     v = [lo, hi, lo]
                     v[pos] = b
                     return v
-                _one(acc, {'fn': fn, 'args': build(vals_of)})
+                arrays.append(build(vals_of))
+            for a in arrays:
+                _one(acc, {'fn': fn, 'args': a})
+                # the same request in every narrower integer dtype that can hold the values
+                for prof in ('i4', 'i2', 'u2', 'u4'):
+                    if fits(prof, a):
+                        _one(acc, {'fn': fn, 'args': a, 'dtype': prof})
             if which == 'spec' and f == 'run2d':
                 a = build(lambda name: t[name])
                 a['run2d'] = str(b)
